@@ -148,6 +148,31 @@ pub fn check(sc: &Scenario, ex: &Exec, a: &Analysis) -> Vec<Violation> {
         }
     }
 
+    // (e) a failed / short body terminates the connection: the server ends it on its own, it does
+    // not keep it open until the peer goes away (self-delimited framings only; a close-delimited
+    // body ends with the connection anyway)
+    if !faulted && a.parsed.garbage.is_none() {
+        for (j, d) in a.dispatched.iter().enumerate() {
+            if !body_problem.get(d.handler).copied().unwrap_or(false) {
+                continue;
+            }
+            let Some(r) = finals.get(j) else { continue };
+            let truth = &a.stream.truths[d.handler.min(a.stream.truths.len() - 1)];
+            let prog = &sc.programs[d.handler];
+            let no_body_rule = truth.method == "HEAD" || prog.status == 204 || prog.status == 304;
+            if no_body_rule || r.framing == RFraming::Close || r.tag() != Some(d.handler) {
+                continue;
+            }
+            if ex.fin_delivered || ex.done.is_none() {
+                let kind = if prog.body.produced().1 { "body-error" } else { "short-body" };
+                v.push(viol(P, "e", &format!("connection-not-terminated-after-{kind}:{}", framing_name_kind(&r.framing)), format!(
+                    "the body of response #{j} (h{}) {} but the server kept the connection open (it ended only after the peer closed: {}, connection result {:?})",
+                    d.handler, if kind == "body-error" { "failed" } else { "ended before its declared size" }, ex.fin_delivered, ex.done)));
+            }
+            break;
+        }
+    }
+
     for (j, r) in finals.iter().enumerate() {
         let Some(d) = a.dispatched.get(j) else { continue };
         let Some(prog) = sc.programs.get(d.handler) else { continue };
@@ -366,7 +391,7 @@ pub fn scenarios(tier: &str) -> Vec<Scenario> {
     }
     // pairs: the first handler is pending when the second head is decoded
     let first_reqs = ["GET11", "HEAD11", "POST11cl", "GET10ka", "GET11close", "POST11expect"];
-    let first_progs = ["bytes", "stream", "204body", "customEmptyChunk"];
+    let first_progs = ["bytes", "stream", "204body", "customEmptyChunk", "customShort", "streamErr"];
     let second_reqs = ["GET11", "HEAD11", "POST11cl", "GET10", "GET10ka", "GET11close", "HEAD10ka"];
     let second_progs = ["bytes", "stream", "empty", "streamErr"];
     let get = |n: &str| reqs.iter().find(|(k, _)| *k == n).unwrap().1.clone();
